@@ -655,7 +655,7 @@ func gen(seed uint64, tier string) {
 		emitLadder([]ip{{0, 0}, {400, 40}, {500, 0}, {550, -100}, {0, -100}, {25, -6}, {475, 4}}, 50)
 		npk := 10
 		if tier == "thorough" {
-			npk = 150
+			npk = 100
 		}
 		for c := 0; c < npk; c++ {
 			lc := int64(r.Range(300, 800))
@@ -692,7 +692,7 @@ func gen(seed uint64, tier string) {
 	{
 		ncc := 60
 		if tier == "thorough" {
-			ncc = 300
+			ncc = 200
 		}
 		for c := 0; c < ncc; c++ {
 			tol := []float64{0.5, 1.5, 3.5, float64(r.Range(2, 16))}[r.Intn(4)]
@@ -771,7 +771,7 @@ func gen(seed uint64, tier string) {
 	// straight run are tested against the rest of the same run (collinear branch of findIntersection).
 	nd := 150
 	if tier == "thorough" {
-		nd = 2500
+		nd = 1500
 	}
 	for c := 0; c < nd; c++ {
 		base := gpLine(r, r.Range(3, 12))
